@@ -130,7 +130,7 @@ func QRstep(H, U Matrix, p, q int, inSitu *InSitu) {
   }
 }
 
-func francisQRstep(H, U Matrix, p, q int, inSitu *InSitu) {
+func francisQRstep(H, U Matrix, p, q int, inSitu *InSitu, exceptional bool) {
 
   var u Matrix
 
@@ -165,6 +165,18 @@ func francisQRstep(H, U Matrix, p, q int, inSitu *InSitu) {
   t1.Mul(h11, h22)
   t2.Mul(h12, h21)
   t .Sub(t1 , t2)
+  if exceptional {
+    // the standard shifts may cycle (e.g. for permutation matrices), use
+    // ad hoc shifts to break the symmetry: s = 2 a, t = a^2 + 0.4375 r^2,
+    // where a = h22 + 0.75 r and r = |h21| + |h10|
+    r := math.Abs(h21.GetFloat64())
+    if n > 2 {
+      r += math.Abs(H22.ConstAt(n-2, n-3).GetFloat64())
+    }
+    a := h22.GetFloat64() + 0.75*r
+    s.SetFloat64(2.0*a)
+    t.SetFloat64(a*a + 0.4375*r*r)
+  }
 
   h11 = H22.At(0,0)
   h12 = H22.At(0,1)
@@ -289,24 +301,35 @@ func qrAlgorithm(inSitu *InSitu, epsilon float64) (Matrix, Matrix, error) {
     h = h_
     u = u_
   }
+  // sub-diagonal entries below machine precision relative to the largest
+  // entry of h are numerically zero, irrespective of epsilon (for defective
+  // eigenvalues the relative criterion below might never be satisfied)
+  floor := 0.0
+  for i := 0; i < n; i++ {
+    for j := 0; j < n; j++ {
+      floor = math.Max(floor, math.Abs(h.ConstAt(i,j).GetFloat64()))
+    }
+  }
+  floor *= 2.220446e-16
 
-  // apply Francis QR steps
-  for p, q := 0, 0; q < n-1; {
+  // apply Francis QR steps (k counts the steps since the last deflation)
+  for p, q, k := 0, 0, 0; q < n-1; k++ {
 
     for i := 0; i < n-1; i++ {
       h11 := h.ConstAt(i  ,i  ).GetFloat64()
       h21 := h.ConstAt(i+1,i  ).GetFloat64()
       h22 := h.ConstAt(i+1,i+1).GetFloat64()
-      if math.Abs(h21) <= epsilon*(math.Abs(h11) + math.Abs(h22)) {
+      if math.Abs(h21) <= epsilon*(math.Abs(h11) + math.Abs(h22)) || math.Abs(h21) <= floor {
         h.At(i+1,i).SetFloat64(0.0)
       }
     }
     // p: number of rows/cols in H11
     // q: number of rows/cols in H33
-    p, q = splitMatrix(h, q)
-
+    if p_, q_ := splitMatrix(h, q); p_ != p || q_ != q {
+      p, q, k = p_, q_, 0
+    }
     if q < n-1 {
-      francisQRstep(h, u, p, q, inSitu)
+      francisQRstep(h, u, p, q, inSitu, k % 10 == 9)
     }
   }
   // reduce 2x2 blocks along the diagonal
@@ -328,7 +351,7 @@ func qrAlgorithm(inSitu *InSitu, epsilon float64) (Matrix, Matrix, error) {
       h11 := h.ConstAt(i  ,i  ).GetFloat64()
       h21 := h.ConstAt(i+1,i  ).GetFloat64()
       h22 := h.ConstAt(i+1,i+1).GetFloat64()
-      if math.Abs(h21) <= epsilon*(math.Abs(h11) + math.Abs(h22)) {
+      if math.Abs(h21) <= epsilon*(math.Abs(h11) + math.Abs(h22)) || math.Abs(h21) <= floor {
         h.At(i+1,i).SetFloat64(0.0)
         break
       } else {
